@@ -7,7 +7,8 @@ process reads the day of write-out `k0` through `GPDir` (list month directory, `
 `ReadBlockAtIndex` for every block and column); `schedule` (a string over `w`/`r`) says which of
 the two processes performs its next file operation. The implementation reports the reader's
 operations (`rops`) and what it read (`res`: block timestamps in order, `ERR` for a block that
-could not be read, or `absent` / `err:<what>`).
+could not be read, or `absent` / `err:<what>`) and whether the bytes it held for each block when all
+columns had been read are the block's content (`data`).
 
 Spec: the reader never fails and returns exactly the blocks of a committed state that existed at
 some moment of its run: the first `j` write-outs to that day, for some `k0 ≤ j ≤ |history|`.
@@ -18,10 +19,16 @@ open DB
 def dayBlocks (hist : List WriteOut) (j : Nat) (iface : String) (day : Int) : List Int :=
   ((hist.take j).filter fun w => w.iface == iface && dayOf w.ts == day).map (·.ts)
 
+def colFiles : List String := ["sip", "dip", "proto", "dport", "bytes_rcvd", "bytes_sent", "pkts_rcvd", "pkts_sent"]
+
 def showRes (ts : List Int) : String := Wire.showList (ts.map toString)
 
 def judge (args : List String) (out : String) : String :=
   match args with
+  | ["free", _, _] =>
+    -- free-running overlap of the real engine with a writer: the harness compared every answer with the
+    -- answers of all committed states (computed through the same engine on scratch copies)
+    if out = "free=ok" then "holds" else "violates:" ++ (out.drop 14).toString
   | [h, k0s, _sched] =>
     match parseHistory h, Wire.parseNat k0s with
     | some hist, some k0 =>
@@ -33,16 +40,19 @@ def judge (args : List String) (out : String) : String :=
         | none => "violates:unparsable"
         | some res =>
           let allowed := (List.range (hist.length + 1 - k0)).map fun d => dayBlocks hist (k0 + d) w.iface (dayOf w.ts)
-          if res.startsWith "err" then "violates:reader-failed"
+          let rops := (getField fs "rops").getD ""
+          -- the mechanism is named when the reader's own trace shows it: its one recovery attempt (list the
+          -- month directory again, open under the new name) lost the race against a SECOND rename of the
+          -- day directory
+          let raced := (rops.splitOn "openmeta:ENOENT,readdir,close,openmeta:ENOENT").length > 1 ||
+            colFiles.any (fun c => (rops.splitOn ("opencol:" ++ c ++ ":ENOENT,readdir,close,opencol:" ++ c ++ ":ENOENT")).length > 1)
+          if getField fs "data" != some "ok" then "violates:block-data-corrupted"
+          else if res.startsWith "err" then
+            (if raced then "violates:open-failed-recovery-raced-by-second-rename" else "violates:reader-failed")
           else if res = "absent" then (if allowed.contains [] then "holds" else "violates:day-hidden")
           else if (Wire.listField res).contains "ERR" then
-            -- name the mechanism when the reader's own trace shows it: its one recovery attempt (list the
-            -- month directory again, open the metadata under the new name) lost the race against a SECOND
-            -- rename of the day directory
-            let rops := (getField fs "rops").getD ""
-            if (rops.splitOn "openmeta:ENOENT,readdir,close,openmeta:").length > 1
-            then "violates:block-unreadable-recovery-raced-by-second-rename"
-            else "violates:block-unreadable-during-write"
+            (if raced then "violates:block-unreadable-recovery-raced-by-second-rename"
+             else "violates:block-unreadable-during-write")
           else if allowed.any (fun a => showRes a = res) then "holds"
           else "violates:not-a-committed-state"
     | _, _ => "violates:bad-case"
